@@ -67,7 +67,11 @@ func (pr *playerRunner) UpdateTableState(table *pokertable.Table) error {
 			return nil
 		}
 
-		pr.lastGameStateTime = gs.UpdatedAt
+		// a hand state that arrives on a snapshot which is still "opened" (a table-level event right after the
+		// open) is not acted on below: it must not count as seen, the playing snapshot carries the same state
+		if table.State.Status != pokertable.TableStateStatus_TableGameOpened {
+			pr.lastGameStateTime = gs.UpdatedAt
+		}
 	}
 
 	// Check if you have been eliminated
